@@ -7,6 +7,7 @@ From Coq Require Import ZArith List Bool.
 From Coq.Strings Require Import Byte.
 From Verif Require Import Lib.Bytes Lib.BitRegroup Model.ChangeBase Model.Bip39 Crypto.Sha256.
 From Verif Require Import Gen.GenWordlists Proofs.Bip39Spec Proofs.Bip39Wordlists Proofs.Bip39Final.
+From Verif Require Import Model.Bip39Frozen Proofs.Bip39Frozen Proofs.Bip39Detect.
 Import ListNotations.
 Open Scope Z_scope.
 
@@ -90,6 +91,95 @@ Theorem seed_is_bip39 : forall (str : Type) (NFKD : str -> str) (utf8 : str -> b
     if accepts (NFKD s) then Some (KDF (utf8 (NFKD s)) (mnemonic_salt ++ utf8 (NFKD pw)) 2048 64) else None.
 Proof. exact final_seed. Qed.
 
+(* --- the regenerated word lists ARE the frozen BIP39 lists (Model/Bip39Frozen.v): same nine lists, same order,
+       same words at the same positions; an edited / swapped / added word in bitcoinlib/wordlist breaks this --- *)
+Theorem bundled_wordlists_are_frozen : bundled_wordlists = frozen_wordlists /\ bundled_count = frozen_count.
+Proof. exact bundled_is_frozen. Qed.
+
+(* --- language detection and sanitising.  A word is known by its position in each list ([pos k w]); [order] is the
+       order in which the directory lists the files (arbitrary).  detect_language returns a list with the largest
+       number of sentence words, and THE list when only one list contains every word --- *)
+Theorem detect_language_sound : forall (W : Type) (pos : nat -> W -> option Z) order ws k,
+  lib_detect W pos order ws = Some k ->
+  In k order /\ (0 < count_in W pos k ws)%nat /\
+  forall j, In j order -> (count_in W pos j ws <= count_in W pos k ws)%nat.
+Proof. exact final_detect_sound. Qed.
+
+Theorem detect_language_unique : forall (W : Type) (pos : nat -> W -> option Z) order self ws,
+  In self order -> ws <> [] -> forallb (known W pos self) ws = true ->
+  (forall j, In j order -> j <> self -> forallb (known W pos j) ws = false) ->
+  lib_detect W pos order ws = Some self.
+Proof. exact final_detect_unique. Qed.
+
+Theorem sanitize_sound : forall (W : Type) (pos : nat -> W -> option Z) order ws ws',
+  lib_sanitize W pos order ws = Some ws' ->
+  ws' = ws /\ ws <> [] /\ exists k, In k order /\ forallb (known W pos k) ws = true.
+Proof. exact final_sanitize_sound. Qed.
+
+Theorem sanitize_complete : forall (W : Type) (pos : nat -> W -> option Z) order self ws,
+  In self order -> ws <> [] -> forallb (known W pos self) ws = true -> lib_sanitize W pos order ws = Some ws.
+Proof. exact final_sanitize_complete. Qed.
+
+(* --- Mnemonic(lang).to_entropy(sentence, includes_checksum) through sanitize + detection + lookup is the conversion
+       over the OBJECT's own list, whatever the other lists contain and in whatever order the directory lists them
+       (so sentences made of words shared between lists decode like any other) --- *)
+Theorem to_entropy_uses_own_list : forall (W : Type) (weqb : W -> W -> bool) H langs order self flag ws,
+  In self order ->
+  lib_entropy_obj W (pos_of_lists W weqb langs) H order self flag ws =
+  lib_entropy_of_words_opt H W weqb (nth self langs []) flag ws.
+Proof. exact final_obj_is_own_list. Qed.
+
+Theorem bundled_object_roundtrip : forall H, hash32 H -> forall order k, (k < 9)%nat -> In k order ->
+  forall ent, valid_ent_len (length ent) -> hexlike ent = false ->
+  exists ws, lib_words_of_entropy H Z 0 (nth k bundled_wordlists []) ent = Some ws /\
+             lib_entropy_obj Z (pos_of_lists Z Z.eqb bundled_wordlists) H order k true ws = Some ent.
+Proof. exact final_bundled_object_roundtrip. Qed.
+
+Theorem object_rejects_bad_sentence : forall (W : Type) (weqb : W -> W -> bool) H langs order self ws,
+  In self order -> lib_entropy_of_words H W weqb (nth self langs []) ws = None ->
+  lib_entropy_obj W (pos_of_lists W weqb langs) H order self true ws = None /\
+  lib_seed_accepts W (pos_of_lists W weqb langs) H order self true ws = false.
+Proof. exact final_object_rejects. Qed.
+
+(* --- to_seed with the validate switch: whenever a seed comes out it is the BIP39 seed (the switch changes only
+       which sentences are refused; the sentence is NFKD-normalised in both settings) --- *)
+Theorem seed_is_bip39_any_validate : forall (str : Type) (NFKD : str -> str) (utf8 : str -> bytes)
+  (KDF : bytes -> bytes -> Z -> Z -> bytes) (accepts sanitizes : str -> bool) v s pw,
+  lib_to_seed_v str NFKD utf8 KDF accepts sanitizes v s pw =
+    if sanitizes (NFKD s) && (negb v || accepts (NFKD s))
+    then Some (spec_seed str NFKD utf8 KDF s pw) else None.
+Proof. exact final_seed_v. Qed.
+
+Theorem seed_validate_default : forall (str : Type) (NFKD : str -> str) (utf8 : str -> bytes)
+  (KDF : bytes -> bytes -> Z -> Z -> bytes) (accepts sanitizes : str -> bool) s pw,
+  (forall x, accepts x = true -> sanitizes x = true) ->
+  lib_to_seed_v str NFKD utf8 KDF accepts sanitizes true s pw = lib_to_seed str NFKD utf8 KDF accepts s pw.
+Proof. exact final_seed_v_default. Qed.
+
+(* --- the switches of to_mnemonic / to_entropy: the defaults are the functions of the theorems above;
+       check_on_curve only refuses (0 and values >= n); without checksum both directions keep the NUMBER --- *)
+Theorem default_switches : forall H d wi,
+  lib_to_indices_opt H true false d = lib_to_indices H d /\ lib_to_entropy_opt H true wi = lib_to_entropy H wi.
+Proof. exact final_default_switches. Qed.
+
+Theorem check_on_curve_only_refuses : forall H a d,
+  lib_to_indices_opt H a true d =
+    if on_curve_ok (of_be (lib_to_bytes d)) then lib_to_indices_opt H a false d else None.
+Proof. exact final_check_on_curve_only_refuses. Qed.
+
+Theorem raw_indices_value : forall H c d wi, lib_to_indices_opt H false c d = Some wi ->
+  val 2048 wi = of_be (lib_to_bytes d) /\ in_base 2048 wi /\ wi <> [].
+Proof. exact final_raw_indices_value. Qed.
+
+Theorem raw_entropy_value : forall H wi e, in_base 2048 wi -> lib_to_entropy_opt H false wi = Some e ->
+  of_be e = val 2048 wi /\ (4 * length wi / 3 <= length e)%nat.
+Proof. exact final_raw_entropy_value. Qed.
+
+(* --- sessions: the answer to a call does not depend on the calls made before it --- *)
+Theorem session_history_independent : forall pre r post,
+  nth_error (run_session (pre ++ r :: post)) (length pre) = Some (answer r).
+Proof. exact final_session_history_independent. Qed.
+
 (* --- the reusable 8 <-> 11 (any a <-> b) regrouping law --- *)
 Theorem regroup_lossless : forall a b syms,
   in_base (2 ^ Z.of_nat a) syms -> a <> O -> b <> O -> ((a * length syms) mod b = 0)%nat ->
@@ -136,6 +226,50 @@ Example seed_unfixed_refuted :
   lib_seed_query ostr nfkd fst (fun _ => true) s pw = Some ([x61], mnemonic_salt ++ [x65; xcc; x81]).
 Proof. split; vm_compute; reflexivity. Qed.
 
+(* --- non-vacuity of the detection statements: a 12-word sentence whose words are ALL in two lists (positions
+       0,..,0,3 in list 0 = the zero-entropy sentence; other positions in list 1).  The directory order decides which
+       language is detected, the entropy does not change; the object of list 1 refuses it (bad checksum there) --- *)
+Example shared_words_tie :
+  lib_detect_x [0%nat; 1%nat] shared_sentence = Some 0%nat /\
+  lib_detect_x [1%nat; 0%nat] shared_sentence = Some 1%nat /\
+  lib_entropy_obj_x [0%nat; 1%nat] 0 true shared_sentence = Some (repeat x00 16) /\
+  lib_entropy_obj_x [1%nat; 0%nat] 0 true shared_sentence = Some (repeat x00 16) /\
+  lib_entropy_obj_x [0%nat; 1%nat] 1 true shared_sentence = None /\
+  lib_sanitize_x [1%nat; 0%nat] shared_sentence = true /\
+  lib_sanitize_x [1%nat; 0%nat] (shared_sentence ++ [[-1; -1]]) = false /\
+  lib_sanitize_x [1%nat; 0%nat] (shared_sentence ++ [[4; -1]; [-1; 4]]) = false.
+Proof. exact ex_shared_words_tie. Qed.
+
+(* --- the switches: all-zero entropy is refused only behind check_on_curve; without checksum 00 01 <-> [1] --- *)
+Example switches_witness :
+  lib_to_indices_opt sha256 true true (repeat x00 16) = None /\
+  lib_to_indices_opt sha256 true false (repeat x00 16) = Some [0; 0; 0; 0; 0; 0; 0; 0; 0; 0; 0; 3] /\
+  lib_to_indices_opt sha256 false false [x00; x01] = Some [1] /\
+  lib_to_indices_opt sha256 false false [x00; x00; x08; x00] = Some [1; 0] /\
+  lib_to_indices_opt sha256 false false [] = None /\
+  lib_to_entropy_opt sha256 false [1; 0] = Some [x08; x00] /\
+  lib_to_entropy_opt sha256 false [0; 0; 0; 0; 0; 0; 0; 0; 0; 0; 0; 4] = Some (repeat x00 15 ++ [x04]) /\
+  lib_to_entropy_opt sha256 true [0; 0; 0; 0; 0; 0; 0; 0; 0; 0; 0; 4] = None.
+Proof. exact ex_switches_witness. Qed.
+
+(* --- validate=False: a sentence with a bad checksum still gets the PBKDF2 query of its NFKD form; an unknown
+       word is refused in both settings (a string is the pair (UTF-8 bytes, UTF-8 bytes of its NFKD form)) --- *)
+Example validate_switch_witness :
+  let bad := repeat [0; 5] 11 ++ [[4; 77]] in
+  let s : ostr := ([xe3; x80; x80], [x20]) in
+  let pw : ostr := ([xc3; xa9], [x65; xcc; x81]) in
+  lib_seed_query_vx [0%nat; 1%nat] 0 false bad s pw = Some ([x20], mnemonic_salt ++ [x65; xcc; x81]) /\
+  lib_seed_query_vx [0%nat; 1%nat] 0 true bad s pw = None /\
+  lib_seed_query_vx [0%nat; 1%nat] 0 true shared_sentence s pw = Some ([x20], mnemonic_salt ++ [x65; xcc; x81]) /\
+  lib_seed_query_vx [0%nat; 1%nat] 0 false (bad ++ [[-1; -1]]) s pw = None.
+Proof. exact ex_validate_switch_witness. Qed.
+
+Example session_witness :
+  run_session [RqEntropy [0%nat; 1%nat] 0 false shared_sentence; RqEntropy [0%nat; 1%nat] 0 true shared_sentence;
+               RqDetect [1%nat; 0%nat] shared_sentence; RqSanitize [0%nat] [[-1]]] =
+  [RsBytes (repeat x00 15 ++ [x03]); RsBytes (repeat x00 16); RsLang 1; RsErr].
+Proof. exact ex_session_witness. Qed.
+
 Print Assumptions bip39_roundtrip.
 Print Assumptions bip39_accept_canonical.
 Print Assumptions bip39_checksum_mismatch_rejected.
@@ -150,3 +284,18 @@ Print Assumptions bundled_wordlists_ok.
 Print Assumptions bundled_roundtrip.
 Print Assumptions seed_is_bip39.
 Print Assumptions regroup_lossless.
+Print Assumptions bundled_wordlists_are_frozen.
+Print Assumptions detect_language_sound.
+Print Assumptions detect_language_unique.
+Print Assumptions sanitize_sound.
+Print Assumptions sanitize_complete.
+Print Assumptions to_entropy_uses_own_list.
+Print Assumptions bundled_object_roundtrip.
+Print Assumptions object_rejects_bad_sentence.
+Print Assumptions seed_is_bip39_any_validate.
+Print Assumptions seed_validate_default.
+Print Assumptions default_switches.
+Print Assumptions check_on_curve_only_refuses.
+Print Assumptions raw_indices_value.
+Print Assumptions raw_entropy_value.
+Print Assumptions session_history_independent.
